@@ -125,7 +125,7 @@ def gen_case(ctx):
 
 def edge_length(case, nodepos, na, nb):
     """physical length of the lattice edge: straight, or the analytic arc through its third point"""
-    key = "-".join(str(n) for n in sorted((na, nb)))
+    key = lattice.pair_key(na, nb)
     arcs = case.get("arcs") or {}
     if key in arcs:
         return geom.arc_length_through(nodepos[min(na, nb)], arcs[key], nodepos[max(na, nb)])
